@@ -148,5 +148,6 @@ func main() {
 		genDump(p, *out)
 		genString(p, *out)
 		genWf(p, *out)
+		genWire(p, *out)
 	}
 }
